@@ -144,9 +144,17 @@ func (db *DB) Delete(
 		if !exact {
 			startDomain += 1
 		}
+		// A garbage collection pass may have moved the domain inside its file since
+		// the lookup: the split pointers must be built from its current offset.
+		if curr := db.idx.mu.pointers[startDomain]; curr.TimeRange == start.TimeRange {
+			start = curr
+		}
 	}
 	if db.idx.mu.pointers[endDomain] != end {
 		endDomain, _ = db.idx.unprotectedSearch(end.TimeRange)
+		if curr := db.idx.mu.pointers[endDomain]; curr.TimeRange == end.TimeRange {
+			end = curr
+		}
 	}
 
 	ok, err := validateDelete(startDomain, endDomain, &startOffset, &endOffset, db.idx)
